@@ -30,6 +30,10 @@ mod arithmetic;
 mod image;
 mod linalg;
 mod nonlinearity;
+#[cfg(feature = "verif")]
+mod verif;
+#[cfg(feature = "verif")]
+pub use verif::{verif_trace, VerifEvent, VerifState};
 
 use crate::numbers::*;
 
@@ -412,6 +416,10 @@ impl Array {
             if let Some(x) = self.delta.take() {
                 x
             } else {
+                #[cfg(feature = "verif")]
+                verif::emit(VerifEvent::PassRoot {
+                    node: self.verif_node_id(),
+                });
                 self.propagate_consumers();
                 match delta {
                     Some(x) => x,
@@ -428,6 +436,10 @@ impl Array {
                 let is_tracked: Vec<bool> =
                     self.children.iter().map(|c| c.stop_tracking()).collect();
 
+                #[cfg(feature = "verif")]
+                verif::emit(VerifEvent::ClosureCall {
+                    node: self.verif_node_id(),
+                });
                 let delta = (*x)(&self.children, &is_tracked, &mut delta);
 
                 self.children
@@ -441,6 +453,11 @@ impl Array {
                 for (i, delta) in delta.into_iter().enumerate() {
                     if let Some(delta) = delta {
                         let child = &self.children[i];
+                        #[cfg(feature = "verif")]
+                        verif::emit(VerifEvent::Deliver {
+                            parent: self.verif_node_id(),
+                            child: child.verif_node_id(),
+                        });
                         {
                             match child.delta.take() {
                                 Some(x) => child.delta.set(Some(&x + &delta)),
@@ -465,6 +482,10 @@ impl Array {
         }
 
         if self.children.is_empty() || self.keep_gradient.get() {
+            #[cfg(feature = "verif")]
+            verif::emit(VerifEvent::Store {
+                node: self.verif_node_id(),
+            });
             let mut gradient = self.gradient.borrow_mut();
             match &mut *gradient {
                 Some(x) => *gradient = Some(&*x + &delta),
